@@ -156,8 +156,63 @@ def bnGt : BnFq12 :=
 
 def fmt12 {m : Nat} (x : T12 m) : String := fmtEl (fp12ToList x)
 
+/-- `x,y` / `inf` and `x0,x1,y0,y1` / `inf`, separated by `|`. -/
+def parsePointPair (m : Nat) (s : String) :
+    Option (Option (Zn m × Zn m) × Option (Quad (Zn m) × Quad (Zn m))) :=
+  match s.splitOn "|" with
+  | [p, q] => do
+    let p ← (if p = "inf" then some none else do
+      match ← parseNatList? p with
+      | [x, y] => some (some (Zn.ofNat m x, Zn.ofNat m y))
+      | _ => none)
+    let q ← (if q = "inf" then some none else do
+      match ← parseNatList? q with
+      | [x0, x1, y0, y1] => some (some (pairToFq2 (x0, x1), pairToFq2 (y0, y1)))
+      | _ => none)
+    pure (p, q)
+  | _ => none
+
+def parseTerms (m : Nat) (s : String) :
+    Option (List (Option (Zn m × Zn m) × Option (Quad (Zn m) × Quad (Zn m)))) :=
+  if s = "-" then some [] else (s.splitOn ";").mapM (parsePointPair m)
+
+/-- `s1:b1,s2:b2,…` as scalars / discrete logarithms modulo `r`. -/
+def parseMsm (r : Nat) (s : String) : Option (List (Zn r) × List (Zn r)) := do
+  let l ← parsePairs s
+  pure (l.map (fun t => Zn.ofNat r t.1), l.map (fun t => Zn.ofNat r t.2))
+
+/-- `DualMSM::check` on discrete logarithms: G1 = `Zn r` (additive), `[σ]₂` and `−[γ]₂` as logs,
+Miller loop + final exponentiation = `gT^(Σ …)` through the BLS `multi_miller_loop` control flow. -/
+def dualModel (ls rs : String) (sigma gamma : Nat) : Option String := do
+  let r := Gen.blsR
+  let (lsc, lb) ← parseMsm r ls
+  let (rsc, rb) ← parseMsm r rs
+  let mml (terms : List (Zn r × Nat)) : BlsFp12 :=
+    ppModel true r Bls.gtGenerator (terms.map (fun t => (t.1.val, t.2)))
+  match dualMsmCheck (S := Zn r) (G := Zn r) (fun s b => s * b) mml id (· == 1) lsc lb rsc rb
+      (sigma % r) ((r - gamma % r) % r) with
+  | some b => some (fmtBool b)
+  | none => some "panic"
+
 def pairingAnswer (ws : List String) : Option String :=
   match ws with
+  | ["bn-miller", terms] => do
+    let terms ← parseTerms Gen.bnP terms
+    some (fmt12 (Bn.multiMillerLoop terms))
+  | ["bn-fexp", f] => do
+    let f ← fp12OfList? Gen.bnP (← parseNatList? f)
+    match Bn.finalExponentiation f with
+    | some g => some (fmt12 g)
+    | none => some "panic"
+  | ["bn-fexp-naive", f] => do
+    let f ← fp12OfList? Gen.bnP (← parseNatList? f)
+    some (fmt12 (Bn.finalExpNaive f))
+  | ["bls-ate", pq] => do
+    let (p, q) ← parsePointPair Gen.blsP pq
+    some (fmt12 (Bls.pairing p q))
+  | ["gtgen", "bls"] => some (fmt12 Bls.gtGenerator)
+  | ["dual", "bls", ls, rs, sigma, gamma] => do
+    dualModel ls rs (← parseNat? sigma) (← parseNat? gamma)
   | ["pp", cv, _entry, pairs] => do
     let pairs ← parsePairs pairs
     match cv with
